@@ -23,6 +23,22 @@ Definition run_vm (len : bool) (ps : Z) (ms : list mitem) (zs : option (list zli
        (if wf_kernel k && has_total_free k && float_exact k then JC "Val" [jv_vm (spec_vm k)] else jnone);
        jbool (negb (no_junk ms)); jbool (float_exact k) ].
 
+(* /proc/zoneinfo cannot be opened (any errno) or read: the demanded answer is that of the kernel
+   without zoneinfo; for a read error it is demanded only when the file is not consulted (the escaping
+   OSError of the other case is an observation, compared with the model only) *)
+Definition run_vm_z (len : bool) (ps : Z) (ms : list mitem) (z : zstate) : jv :=
+  let k := mk_kernel ms None None ps (0, 0, 1) in
+  let mi := k_meminfo ms in
+  let demanded := match z with
+                  | ZAbsent | ZOpenErr _ => true
+                  | ZReadErr _ => negb (zone_read k)
+                  | ZContent _ => false
+                  end in
+  JL [ JB mi; jnone;
+       jv_outcome jv_vm (virtual_memory_z len ps mi z);
+       (if wf_kernel k && has_total_free k && demanded then JC "Val" [jv_vm (spec_vm k)] else jnone);
+       jbool (negb (no_junk ms)); jbool (float_exact k) ].
+
 Definition run_swap (len : bool) (ps : Z) (ms : list mitem) (si : Z * Z * Z) (vs : option (list vitem)) : jv :=
   let k := mk_kernel ms None vs ps si in
   let mi := k_meminfo ms in
